@@ -308,6 +308,7 @@ type runtimeState struct {
 	basicByRoute         map[string]*ingress.BasicAuth
 	forwardByRoute       map[string]*ingress.ForwardAuth
 	hmacByRoute          map[string]*ingress.HMACAuth
+	retiredHMAC          map[string]*ingress.HMACAuth // authenticators of routes dropped by a reload; kept for their nonce caches
 	ingressGlobalLimit   *tokenBucketLimiter
 	ingressRouteLimits   map[string]*tokenBucketLimiter
 	adaptiveController   *adaptiveAdmissionController
@@ -989,8 +990,26 @@ func (s *runtimeState) loadAuth(compiled config.Compiled) error {
 	s.forwardByRoute = forwardByRoute
 	// Replay protection must survive a reload: the new authenticator of a
 	// route keeps the nonces its predecessor has already honoured.
+	// Routes (or their HMAC auth) that a reload drops keep their
+	// cache in retiredHMAC so that re-adding them later does not start empty.
+	for path, prev := range s.hmacByRoute {
+		if prev != nil && hmacByRoute[path] == nil {
+			if s.retiredHMAC == nil {
+				s.retiredHMAC = make(map[string]*ingress.HMACAuth)
+			}
+			s.retiredHMAC[path] = prev
+		}
+	}
 	for path, auth := range hmacByRoute {
-		auth.InheritNonces(s.hmacByRoute[path])
+		if auth == nil {
+			continue
+		}
+		prev := s.hmacByRoute[path]
+		if prev == nil {
+			prev = s.retiredHMAC[path]
+		}
+		auth.InheritNonces(prev)
+		delete(s.retiredHMAC, path)
 	}
 	s.hmacByRoute = hmacByRoute
 	s.mu.Unlock()
